@@ -36,7 +36,7 @@ def run_shard(spec, rec):
         cap = N if math.isfinite(N) else 20
         if cap < 2:
             continue
-        st, x = nn.gen_sample(rng, cfg, n_max=20)
+        st, x = nn.gen_sample(rng, cfg, n_max=20, nondyadic=0.15)
         if len(x) < 2:
             x = x + [rng.choice((0.0, cfg["u"], cfg["t"]))]
         x = x[:cap]
